@@ -34,10 +34,15 @@ KnownDecode(tp) ==
    THEN <<Known("KF-C12-undefined-type-fallback", "value", <<T(FieldType(tp.field), tp.dims, tp.vals)>>)>>
    ELSE <<>>
 
+\* dims beyond TLC's integers: tp.bigdims[i], when present and non-empty, spells dimension i in base 65536 (little endian, >= 2^31)
+IsBigDim(tp, i) == "bigdims" \in DOMAIN tp /\ i <= Len(tp.bigdims) /\ tp.bigdims[i] # <<>>
 DecodeAllowed(tp) ==
    LET dt == DTypeOfCode(tp.code) IN
    IF tp.code \notin SupportedCodes THEN MustError                    \* an element type the library cannot represent
-   ELSE IF \E i \in 1..Len(tp.dims) : tp.dims[i] < 0 THEN MustError
+   ELSE IF \E i \in 1..Len(tp.dims) : ~IsBigDim(tp, i) /\ tp.dims[i] < 0 THEN MustError
+   \* a dimension beyond 2^31: the declared shape has more elements than any payload of a case holds (unless another extent is 0)
+   ELSE IF \E i \in 1..Len(tp.dims) : IsBigDim(tp, i)
+        THEN (IF \E i \in 1..Len(tp.dims) : ~IsBigDim(tp, i) /\ tp.dims[i] = 0 THEN NoCrash ELSE MustError)
    ELSE LET w == Width(dt)
             usesTyped == tp.enc = "typed" /\ tp.field = FieldOf(dt) /\ Len(tp.vals) > 0
             wrongField == tp.enc = "typed" /\ tp.field # FieldOf(dt)           \* a populated field ONNX does not allow for this type: no payload
@@ -46,7 +51,11 @@ DecodeAllowed(tp) ==
             ragged == ~usesTyped /\ ~wrongField /\ Len(tp.raw) % w # 0
         IN IF ragged \/ Len(elems) # Size(tp.dims) THEN MustError
            ELSE IF Size(tp.dims) = 0 THEN NoCrash                               \* empty tensors: not representable by every tensor library
-           ELSE IF dt = "bool" /\ \E k \in 1..Len(elems) : elems[k][1] \notin {0, 1} THEN NoCrash   \* ONNX defines only 0 and 1
+           \* raw bool bytes other than 0 and 1: every ONNX reader reads a non-zero byte as true (numpy semantics); refusing is allowed too.
+           \* What is loaded must be a canonical true.
+           ELSE IF dt = "bool" /\ ~usesTyped /\ \E k \in 1..Len(elems) : elems[k][1] \notin {0, 1}
+                THEN ValueOrError(<<T(dt, tp.dims, [k \in 1..Len(elems) |-> IF elems[k][1] = 0 THEN <<0>> ELSE <<1>>])>>)
+           ELSE IF dt = "bool" /\ \E k \in 1..Len(elems) : elems[k][1] \notin {0, 1} THEN NoCrash   \* typed carrier values other than 0/1: ONNX is silent
            ELSE IF dt = "bool" /\ usesTyped /\ \E k \in 1..Len(tp.vals) : \E i \in 2..4 : tp.vals[k][i] # 0 THEN NoCrash
            ELSE MustValue(<<T(dt, tp.dims, elems)>>)
 =============================================================================
